@@ -1,0 +1,51 @@
+package internal
+
+import (
+	"sync"
+	"testing"
+	"time"
+
+	"github.com/stretchr/testify/require"
+)
+
+// An entry removed by Delete must be reported to the removal listener exactly
+// once with reason REMOVED, also when the policy evicts it or the timing
+// wheel expires it before the REMOVE event of the Delete is processed.
+func TestStore_DeleteNotifyOvertaken(t *testing.T) {
+	for _, reason := range []RemoveReason{EVICTED, EXPIRED} {
+		store := NewStore[int, int](&StoreOptions[int, int]{MaxSize: 1000})
+		defer store.Close()
+		var mu sync.Mutex
+		reasons := []RemoveReason{}
+		store.removalListener = func(key, value int, reason RemoveReason) {
+			mu.Lock()
+			reasons = append(reasons, reason)
+			mu.Unlock()
+		}
+
+		store.Set(1, 1, 1, time.Hour)
+		store.Wait()
+		_, index := store.index(1)
+		shard := store.shards[index]
+		tk := shard.mu.RLock()
+		entry, ok := shard.get(1)
+		shard.mu.RUnlock(tk)
+		require.True(t, ok)
+
+		// hold the policy mutex so the REMOVE event stays queued
+		store.policyMu.Lock()
+		store.Delete(1)
+		if reason == EXPIRED {
+			entry.expire.Store(1)
+		}
+		store.removeEntry(entry, reason)
+		store.policyMu.Unlock()
+		store.Wait()
+
+		mu.Lock()
+		got := append([]RemoveReason{}, reasons...)
+		mu.Unlock()
+		require.Equal(t, []RemoveReason{REMOVED}, got, "overtaken by reason %d", reason)
+		require.Equal(t, 0, store.EstimatedSize())
+	}
+}
